@@ -386,6 +386,36 @@ def build(prop_id, gen_sections, coq_targets, need_model=True, log=print,
     return br
 
 
+def run_coqchk(coq_targets, timeout=2400):
+    """independent re-check of the compiled property files (and everything they depend on) with coqchk;
+    returns dict(ok, axioms, unsafe, log)"""
+    mods = ['PV.' + t[:-3].replace('/', '.') for t in coq_targets if t.startswith('Props/')]
+    if not mods:
+        return {'ok': True, 'axioms': [], 'log': 'no property file'}
+    try:
+        rc, out = _sh('timeout %d coqchk -silent -o -Q . PV %s 2>&1' % (timeout, ' '.join(mods)), cwd=COQ, timeout=timeout + 60)
+    except subprocess.TimeoutExpired:
+        return {'ok': False, 'axioms': [], 'log': 'coqchk timed out'}
+    res = {'ok': rc == 0, 'axioms': [], 'unsafe': [], 'log': out[-1500:]}
+    cur = None
+    for line in out.split('\n'):
+        m = re.match(r'^\* (Axioms|Constants/Inductives relying on type-in-type|Constants/Inductives relying on unsafe \(co\)fixpoints|'
+                     r'Inductives whose positivity is assumed):\s*(.*)$', line)
+        if m:
+            cur = 'axioms' if m.group(1) == 'Axioms' else 'unsafe'
+            rest = m.group(2).strip()
+            if rest and rest != '<none>':
+                res[cur].append(rest)
+        elif cur and line.startswith('    ') and line.strip():
+            res[cur].append(line.strip())
+        elif line.strip() == '':
+            cur = None
+    extra = [a for a in res['axioms'] if a.split()[0] not in ALLOWED_AXIOMS]
+    if extra or res['unsafe']:
+        res['ok'] = False
+    return res
+
+
 # ------------------------------------------------------------------------------------------------
 def stable_hash(obj) -> str:
     return hashlib.sha1(json.dumps(obj, sort_keys=True, default=str).encode()).hexdigest()[:16]
